@@ -21,7 +21,8 @@ EXPLANATION = (
     "(R4) a check parameter that may be None is guarded or defaulted in the strategy; (R5) checks without a "
     "strategy fall back to filtering by the check itself in the element, series and dataframe strategies; (R6) a "
     "parameter the check treats as a literal is re.escape-d before being embedded in a regex, a pattern parameter is "
-    "embedded grouped. NOT decided: that draws validate (hypothesis search + numpy/pandas dtype conversion)."
+    "embedded grouped; (R7) in the series / dataframe strategies nothing transforms the strategy (null masks, index "
+    "attachment, mapping) after a check-based fallback filter, so the object the filter accepted is the object drawn. NOT decided: that draws validate (hypothesis search + numpy/pandas dtype conversion)."
 )
 LEVEL_RULE = "one obligation per (check strategy, path) / parameter / fallback site"
 FLOORS = {"R1": 14, "R2": 30, "R3": 14, "R4": 1, "R5": 3, "R6": 2, "R7": 3}
